@@ -227,6 +227,109 @@ def replay_stop_rule(model):
     return {"reproduced": bool(bad), "evaluations_done": len(calls), "first_evaluation_with_batch_max_force_within_tolerance": 4, "max_force_components_at_the_last_evaluation": last, "force_tol": 0.05, "printed": text}
 
 
+def replay_optimizer_reuse(model):
+    """real code: a steepest-descent optimiser object that already ran once (AM1 water, loose tolerance, few evaluations) is used
+    for a second run: the second run must make as many evaluations, and return the same residual, as a fresh optimiser does."""
+    import io, contextlib
+    import torch
+    from seqm.seqm_functions.constants import Constants
+    from seqm.Molecule import Molecule
+    import seqm.MolecularDynamics as M
+
+    torch.set_default_dtype(torch.float64)
+    params = {"method": "AM1", "scf_eps": 1e-8, "scf_converger": [1], "sp2": [False, 1e-5], "elements": [0, 1, 8], "learned": [], "pair_outer_cutoff": 1e10, "eig": True}
+
+    def molecule(stretch):
+        return Molecule(Constants(), dict(params), torch.tensor([[[0.0, 0, 0], [0.96 + stretch, 0.05, 0], [-0.24, 0.93, 0.02]]]), torch.tensor([[8, 1, 1]]))
+
+    def run(opt, stretch):
+        n = [0]
+        h = opt.esdriver.register_forward_pre_hook(lambda *a: n.__setitem__(0, n[0] + 1))
+        try:
+            with contextlib.redirect_stdout(io.StringIO()):
+                ferr, _ = opt.run(molecule(stretch), log=False)
+        finally:
+            h.remove()
+        return n[0], float(ferr)
+
+    make = lambda: M.Geometry_Optimization_SD(dict(params), alpha=0.005, force_tol=1e-6, max_evl=4)
+    fresh = run(make(), 0.10)
+    used = make()
+    first = run(used, 0.0)
+    try:
+        second = run(used, 0.10)
+    except Exception as exc:  # noqa
+        second = "raised %s: %s" % (type(exc).__name__, str(exc)[:100])
+    return {"reproduced": fresh != second, "fresh optimiser (evaluations, max force)": fresh, "first run on the reused optimiser": first, "second run on the reused optimiser": second, "max_evl": 4}
+
+
+def task_run_reuse(ctx):
+    """BOUNDED (max_evl = 3, loops unrolled by execution, not cut): the real run() with the real onestep(); the electronic-structure
+    driver hands out a fresh symbolic force field per evaluation.  Two consecutive runs on ONE optimiser object: in each, the
+    evaluations stop at the first one whose largest force component meets the tolerance, or after max_evl; the value returned
+    is that evaluation's; the second run owes nothing to the first.  Independent of how the loop header is written."""
+    from contracts.C07_differentiability import _quiet
+
+    ctx.under_contract(SD + ".run", stubs=["esdriver"], note="bounded: max_evl = 3, two consecutive runs on one object")
+    ctx.under_contract(SD + ".onestep", stubs=["esdriver"])
+    NE = 3
+    tol = real("tol")
+    rep = []
+    rp = lambda mdl: (rep or rep.append(_quiet(replay_optimizer_reuse)) or rep)[0]
+
+    def thunk():
+        calls = {"A": 0, "B": 0}
+        which = ["A"]
+
+        def behaviour(molecule, *a, **kw):
+            r = which[0]
+            k = calls[r]
+            calls[r] += 1
+            if calls[r] > NE + 2:
+                raise RuntimeError("more evaluations than max_evl allows")
+            molecule.force = st.symbolic(tuple(molecule.coordinates.a.shape), "F%s%d" % (r, k))
+            molecule.Etot = st.symbolic((molecule.coordinates.a.shape[0],), "E%s%d" % (r, k))
+
+        sd = _make_sd(NE)
+        sd.esdriver.behaviour = behaviour
+        outs = {}
+        for r in ("A", "B"):
+            which[0] = r
+            mol = _mol(1)
+            outs[r] = sd.run(mol, log=False)
+        return outs, dict(calls)
+
+    ex = ctx.explore(thunk, stubs=dict(STUBS, **{"builtins:print": lambda *a, **k: None}) if False else STUBS, name="run twice on one optimiser", max_paths=64)
+    n = 0
+    for p in ex.paths:
+        if p.raised is not None:
+            if isinstance(p.raised, Unmodelled):
+                raise p.raised
+            ctx.fail("run_reuse.raises@p%d" % p.path_id, repr(p.raised) + p.notes.get("traceback", "")[-500:], replay=rp(None))
+            continue
+        n += 1
+        outs, calls = p.value
+        for r in ("A", "B"):
+            k = calls[r]
+            ferr = lambda j: Sym(E.max_(*[abs(real("F%s%d_0_0_%d" % (r, j, c))).n for c in range(3)])) if False else None
+            comps = lambda j: [real("F%s%d_0_0_%d" % (r, j, c)) for c in range(3)]
+            above = lambda j: (abs(comps(j)[0]) > tol) | (abs(comps(j)[1]) > tol) | (abs(comps(j)[2]) > tol)
+            tag = "run_reuse.run%s@p%d" % (r, p.path_id)
+            ctx.prove("%s.at-least-one-and-at-most-max_evl-evaluations" % tag, E.const(1 <= k <= NE), pc=p.pc, replay=rp, classify=lambda m_, r_: "optimiser-object-carries-state-between-runs")
+            for j in range(min(k, NE) - 1):
+                ctx.prove("%s.evaluation-%d-did-not-meet-the-tolerance-(so-the-run-went-on)" % (tag, j + 1), above(j), pc=p.pc)
+            if 1 <= k < NE:
+                ctx.prove("%s.stopped-before-max_evl=>last-evaluation-meets-the-tolerance" % tag, ~above(k - 1), pc=p.pc, replay=rp, classify=lambda m_, r_: "optimiser-object-carries-state-between-runs")
+            if 1 <= k <= NE:
+                got = outs[r][0]
+                gv = got.a.reshape(-1)[0] if isinstance(got, st.T) else S(got)
+                c0 = comps(k - 1)
+                ctx.prove("%s.returned-residual-is-the-largest-force-component-of-the-last-evaluation" % tag, (gv >= abs(c0[0])) & (gv >= abs(c0[1])) & (gv >= abs(c0[2])) & ((gv == abs(c0[0])) | (gv == abs(c0[1])) | (gv == abs(c0[2]))), pc=p.pc)
+    if n < 4:
+        ctx.error("run_reuse.paths", "expected several returning paths, got %d" % n)
+    ctx.bounded.append({"what": "steepest-descent run() executed with its loop unrolled", "bound": "max_evl = 3; two consecutive runs on one optimiser object; one molecule of one atom", "why_not_proved": "stands next to the unbounded loop contract of task run (which is anchored to the loop header and ends in a checker error when the header is rewritten)"})
+
+
 def task_run(ctx):
     """run (loop cut with ghost history): stops at the first evaluation meeting the tolerance or after max_evl evaluations, returns the residuals of the last evaluation and reports 'not converged' exactly when the tolerance was not met."""
     ctx.under_contract(SD + ".run", loops_cut=["for i in range(self.max_evl)"], stubs=["onestep"])
@@ -296,5 +399,5 @@ def task_run(ctx):
     ctx.undecided_clause("monotone descent for small alpha (needs a Lipschitz bound on the real energy surface)")
 
 
-TASKS_QUICK = ["onestep", "run"]
+TASKS_QUICK = ["onestep", "run", "run_reuse"]
 TASKS_THOROUGH = TASKS_QUICK
